@@ -860,7 +860,9 @@ pub fn replay_one(w: &Workload, schedule: &[u32]) -> Result<(Option<Violation>, 
                 Verdict::Harness(e) => Err(e),
             }
         }
-        Prep::Discard(e) => Err(format!("workload does not compile: {e}")),
+        // on this tree the workload is one of those the check sets aside (does not compile, or
+        // the emitted program is unreadable): nothing to execute, hence nothing violated
+        Prep::Discard(_) => Ok((None, true)),
         Prep::Harness(e) => Err(e),
         Prep::Violation(v) => Ok((Some(v), false)),
     }
@@ -1361,6 +1363,14 @@ pub fn selftests() -> Vec<(&'static str, bool, String)> {
         None,
         5000,
         Some(&["records-lost-or-altered"]),
+    );
+    case(
+        "top-level and internal defines instead of let*: evaluated, never torn",
+        &w3,
+        "(use-modules (lipe))\n(define p (current-output-port))\n(define m (make-mutex))\n(define (emit l) (define t (string-append l \"\\n\")) (with-mutex m (display t p)))\n(lipe-scan \"/dev/x\" (lipe-getopt-client-mount-path) (lambda () (call-with-relative-path emit)) (lipe-getopt-required-attrs) 2)".to_string(),
+        None,
+        2000,
+        None,
     );
     let explicit = "(p (current-output-port)) (m (make-mutex)) (pr (lambda (l) (lock-mutex m) (display l p) (display #\\x0a p) (unlock-mutex m)))";
     case("explicit lock-mutex/unlock-mutex around both writes: never torn", &w3, wrap_program(explicit, "(call-with-relative-path pr)"), None, 3000, None);
